@@ -1,12 +1,14 @@
 #!/bin/bash
-# usage: trymut.sh <patch.diff> <CHECK-ID> [VERIF_SPECS]   -- runs a check against a scratch worktree of /repo with the patch applied
+# usage: trymut.sh <patch.diff> <CHECK-ID> [VERIF_SPECS]
+# Runs a check of THIS checkout against a scratch worktree of /repo with the patch applied.
 set -u
+HERE=$(dirname $(readlink -f $0))/..
 PATCH=$1; PID=$2; SPECS=${3:-}
 D=/tmp/scr_$$_$RANDOM
 git -C /repo worktree add -q --detach $D HEAD || exit 3
 if ! git -C $D apply $PATCH; then echo "PATCH DOES NOT APPLY"; git -C /repo worktree remove --force $D; exit 3; fi
 if [ -n "$SPECS" ]; then export VERIF_SPECS=$SPECS; fi
-TEAAL_REPO=$D VERIF_NOEVIDENCE=1 timeout 1500 /verif/dst check $PID --tier quick 2>&1 | grep -E "^(VIOLATION|  class|DONE|KNOWN|HARNESS)" | cut -c1-400
+TEAAL_REPO=$D VERIF_NOEVIDENCE=1 timeout 1500 $HERE/dst check $PID --tier quick 2>&1 | grep -E "^(VIOLATION|  class|DONE|KNOWN|HARNESS)" | cut -c1-400
 rc=${PIPESTATUS[0]}
 git -C /repo worktree remove --force $D
 echo "rc=$rc"
